@@ -1,5 +1,6 @@
 /- Lemmas/WorldLemmas.lean — lookups after functional updates of the world. -/
 import Flumine.SimLoop
+import Mathlib.Tactic.SplitIfs
 namespace Flumine.C15
 open Flumine Flumine.World
 
@@ -29,6 +30,36 @@ theorem market_modify_self (w : World) (mid : Nat) (f : Market → Market) (m : 
     (w.modifyMarket mid f).market? mid = some (f m) := by
   unfold modifyMarket market?
   exact find_map_modify w.markets mid f m hm hf
+
+
+/-- C15.2 the only statuses with which an order can be absent from the live list are complete ones:
+    the simulation loop's per-order step removes an order from the live list only if it is (or has
+    just been made) complete -/
+def loopStep (mid : Nat) (w : World) (oid : Nat) : World :=
+  let o := w.order! oid
+  if o.complete then w.blotterComplete mid oid
+  else match o.sim.kind with
+    | .limit =>
+      if o.sim.sizeRemaining = 0 then (w.orderExecutionComplete oid).blotterComplete mid oid else w
+    | _ =>
+      if o.sim.simStatus = .executionComplete then (w.orderExecutionComplete oid).blotterComplete mid oid else w
+
+theorem loopStep_keeps_or_completes (mid : Nat) (w : World) (oid : Nat) :
+    loopStep mid w oid = w ∨
+    (w.order! oid).complete = true ∧ loopStep mid w oid = w.blotterComplete mid oid ∨
+    loopStep mid w oid = (w.orderExecutionComplete oid).blotterComplete mid oid := by
+  unfold loopStep
+  simp only
+  by_cases hc : (w.order! oid).complete = true
+  · right; left; simp [hc]
+  · simp only [hc, Bool.false_eq_true, if_false]
+    split
+    · split_ifs
+      · right; right; rfl
+      · left; rfl
+    · split_ifs
+      · right; right; rfl
+      · left; rfl
 
 
 end Flumine.C15
